@@ -98,8 +98,39 @@ def check_constructions(W, ob):
     return n
 
 
+def check_getters(W, ob):
+    """a getter `fn X(&self)` that returns the plain field `self..Y` (Y != X) although its struct has a field `X` of the same type"""
+    import re
+    from .facts import Place, strip_generics
+    n = 0
+    for f in W.fx.fn_list:
+        if f.derived or f.kind not in ('fn', 'method') or f.argc != 1 or f.local_name(1) != 'self' or not f.self_ty:
+            continue
+        if not W.is_straight_line(f):
+            continue
+        r = key(W.ctx(f).expr_place(Place({'l': 0, 'p': []})))
+        m = re.match(r'^self((?:\.\w+)*)\.([A-Za-z_]\w*)$', r)
+        if not m:
+            continue
+        n += 1
+        name, fld = f.path.split('::')[-1], m.group(2)
+        crossed = False
+        if fld != name and not m.group(1):
+            a = W.adt(strip_generics(f.self_ty))
+            if a is not None and a.get('variants'):
+                fl = {x['name']: x.get('ty') for x in a['variants'][0]['fields']}
+                crossed = name in fl and fld in fl and fl[name] == fl[fld]
+        if crossed:
+            ob.fail('getter|%s' % short(f.path), '%s() returns the field `%s` although the struct has a field `%s` of the same type: two wires are crossed' % (short(f.path), fld, name), where(f))
+        else:
+            ob.ok('%s() returns `%s`' % (short(f.path), r), where(f))
+    return n
+
+
 def rule(W, ob):
     n1 = check_calls(W, ob)
     n2 = check_constructions(W, ob)
+    n3 = check_getters(W, ob)
+    ob.require_count(n3, 10, 'plain getters')
     ob.require_count(n1, 20, 'field-to-parameter wirings at call sites')
     ob.require_count(n2, 20, 'parameter-to-field wirings in struct literals')
